@@ -140,9 +140,12 @@ def _unquote_tla_string(s):
     return "".join(out)
 
 
-def apalache_inductive(module, ind_inv, cinit="ConstInit", next_="NextA", init="CInit", expect_error=False, timeout=600):
+def apalache_inductive(module, ind_inv, cinit="ConstInit", next_="NextA", init="CInit", expect_error=False, timeout=600,
+                       step_init=None, implies=None, step=True):
     """Unbounded check with Apalache: ind_inv holds initially (length 0 from init) and is preserved by one step from ANY
-    state satisfying it (length 1 from ind_inv).  expect_error: the step check must fail (vacuity guard on a spec mutant)."""
+    state satisfying it (length 1 from ind_inv, or from step_init = a generator-friendly operator that includes ind_inv).
+    implies: an invariant that must hold in every state satisfying ind_inv (length 0 from step_init).
+    step = FALSE: base case and implication only.  expect_error: the step check must fail (vacuity guard on a spec mutant)."""
     md = tempfile.mkdtemp(prefix="rwsv-apa-")
     t = time.time()
     try:
@@ -157,13 +160,18 @@ def apalache_inductive(module, ind_inv, cinit="ConstInit", next_="NextA", init="
             if not ok and not err:
                 raise ToolError("apalache-mc gave no verdict on %s:\n%s" % (module, p.stdout[-2000:]))
             return ok
+        sinit = step_init or ind_inv
         if not expect_error:
             if not run(["--init=" + init, "--inv=" + ind_inv, "--length=0"]):
                 raise ToolError("Apalache: %s!%s does not hold initially (the specification is refuted)" % (module, ind_inv))
-        step = run(["--init=" + ind_inv, "--inv=" + ind_inv, "--length=1"])
-        if step == expect_error:
-            raise ToolError("Apalache: %s!%s %s (cinit %s)" % (module, ind_inv, "is inductive although the variant must be refuted" if expect_error else "is not inductive", cinit))
-        log("[apalache] %s %s with %s: %s, %.1fs" % (module, ind_inv, cinit, "refuted as required" if expect_error else "inductive (unbounded)", time.time() - t))
+            if implies and not run(["--init=" + sinit, "--inv=" + implies, "--length=0"]):
+                raise ToolError("Apalache: %s!%s does not imply %s" % (module, ind_inv, implies))
+        if step:
+            res = run(["--init=" + sinit, "--inv=" + ind_inv, "--length=1"])
+            if res == expect_error:
+                raise ToolError("Apalache: %s!%s %s (cinit %s)" % (module, ind_inv, "is inductive although the variant must be refuted" if expect_error else "is not inductive", cinit))
+        log("[apalache] %s %s with %s: %s, %.1fs" % (module, ind_inv, cinit,
+            "refuted as required" if expect_error else ("inductive (unbounded)" if step else "holds initially") + (", implies " + implies if implies else ""), time.time() - t))
     finally:
         shutil.rmtree(md, ignore_errors=True)
 
